@@ -3,8 +3,9 @@ import Dasp.Driver.Osc
 open Dasp.Driver
 
 def main : IO Unit := runDriver fun
-  | "osc" :: rest => oscLine rest
-  | "noise" :: rest => noiseLine rest
-  | "simplex" :: rest => simplexLine rest
+  | "osc" :: rest => oscLine floatInst rest
+  | "noise" :: rest => noiseLine floatInst rest
+  | "simplex" :: rest => simplexLine floatInst rest
+  | "fp" :: rest => fpLine rest
   | [] => ""
   | _ => "bad-op"
